@@ -20,9 +20,9 @@ META = dict(
          'an outcome is non-trivial when at least one ray reaches the image finite; distinct = rounded image '
          'coordinates of the fan differ',
     exhaustive=True,
-    bounds=dict(quick='all words over 14 symbols, depth<=2 (210 lenses) + every 3-word over the 8 closed-form and '
+    bounds=dict(quick='all words over 15 symbols, depth<=2 (240 lenses) + every 3-word over the 8 closed-form and '
                       'aspheric symbols (512) + 24 samples; 4 fields x 2 wavelengths x 25 pupil points',
-                thorough='all words depth<=3 over 14 symbols (2954 lenses) x 4 numeric variants + samples'),
+                thorough='all words depth<=3 over 15 symbols (3615 lenses) x 4 numeric variants + samples'),
     tolerances=dict(algebraic='1e-9 relative', newton_on_surface='surface tol (1e-6 mm default)'),
     assumptions=['frame convention global = o + Rx Ry Rz local as documented', 'catalogue indices trusted (C18)',
                  'object space is air'],
@@ -50,6 +50,8 @@ def alphabet(v):
         S('sphere', R=-2.5 * p['R'], mat='mirror', t=t[2]),
         S('sphere', R=p['R'], mat=g1, t=t[0], dy=p['dy'], rx=p['rx']),
         S('sphere', R=-p['R'], mat='air', t=t[1], dx=p['dx'], ry=p['ry']),
+        # exit face tilted close to the critical angle of both glasses: part of every fan is totally reflected
+        S('plane', mat='air', t=t[1], rx=0.66 + 0.02 * (v % 4)),
     ]
 
 
@@ -134,7 +136,7 @@ def observe(part, o, rows_of_w, fields, waves, where, steep=None):
         part.transitions += 1
         part.evals += 1
         viols, st = laws.check_trace(rows, rec)
-        for k2 in ('judged', 'finite', 'failed_expected', 'undecided'):
+        for k2 in ('judged', 'finite', 'failed_expected', 'undecided', 'tir_expected'):
             part.count(k2, st[k2])
         img_ok = np.isfinite(rec['y'][-1])
         if np.any(img_ok):
@@ -218,6 +220,8 @@ def nontrivial_guard(total, tier):
     c = total.counters
     if c.get('finite', 0) < 0.5 * max(1, c.get('judged', 0)):
         return f"only {c.get('finite', 0)} of {c.get('judged', 0)} judged ray-surface records are finite"
+    if c.get('tir_expected', 0) < 100:
+        return f"only {c.get('tir_expected', 0)} ray-surface events with total internal reflection were exercised"
     if c.get('fans-reaching-image', 0) < 0.3 * max(1, total.evals):
         return 'fewer than 30% of fans reach the image'
     return None
